@@ -165,13 +165,12 @@ theorem docMatches_at (rxId : String → Nat) (name : C11.Str) (rxHits : List Na
     simp [this]
   rw [h1, h2]; simp
 
-theorem addCalls_ok (rxId : String → Nat) (n : Nat) (es : List (Entry Atom Nat)) (hlen : es.length ≤ n) :
-    ∀ a ∈ addCalls rxId (link es), C11.callOk n a = true := by
+theorem addCalls_ok (rxId : String → Nat) (n : Nat) (P : Prog) (hdom : ∀ d ∈ P.doms, d.idx < n) :
+    ∀ a ∈ addCalls rxId P, C11.callOk n a = true := by
   intro a ha
-  simp only [addCalls, link, List.mem_map] at ha
+  simp only [addCalls, List.mem_map] at ha
   obtain ⟨d, hd, rfl⟩ := ha
-  have := linkDoms_idx es 0 d hd
-  have hidx : d.idx < n := by omega
+  have hidx : d.idx < n := hdom d hd
   unfold C11.callOk
   cases d.key <;> simp [toKind, hidx, toPat]
 
@@ -199,7 +198,7 @@ theorem trieMatch_eq (ps : List Pfx) (a : Nat)
 /-- positional evaluation with the real bitmap and the real CIDR tries = documented meaning of the
 entry's own atom -/
 theorem evalMSReal_at (rxId : String → Nat) (n : Nat) (env : EnvR) (pre suf : List (Entry Atom Nat))
-    (e : Entry Atom Nat) (hlen : (pre ++ e :: suf).length ≤ n)
+    (e : Entry Atom Nat) (hdom : ∀ d ∈ (link (pre ++ e :: suf)).doms, d.idx < n)
     (hwf : (link (pre ++ e :: suf)).ipsWF = true) (haddr : ∀ a ∈ env.ips, a < 2 ^ 128) :
     evalMSReal (link (pre ++ e :: suf))
       (if env.name == [] then []
@@ -214,7 +213,10 @@ theorem evalMSReal_at (rxId : String → Nat) (n : Nat) (env : EnvR) (pre suf : 
       have hn'' : (env.name != []) = true := by simpa using hn
       simp only [hn', Bool.false_eq_true, if_false, hn'', Bool.true_and]
       rw [← docMatches_at rxId env.name env.rxHits pre suf e k ps he]
-      have hlt : pre.length < n := by simp at hlen; omega
+      have hlt : pre.length < n := by
+        have hmem : (⟨pre.length, k, ps⟩ : DomEntry) ∈ (link (pre ++ e :: suf)).doms := by
+          simp only [link]; rw [linkDoms_append]; simp [linkDoms, he]
+        exact hdom _ hmem
       rw [Bool.eq_iff_iff, List.contains_iff_mem, List.mem_filter, List.mem_range]
       simp [hlt]
   | qtype v => simp [evalMSReal, toMS, he, evAtomDoc]
@@ -388,7 +390,7 @@ theorem ipsWF_of_rules (rs : List SrcRule) (fb : Nat) (P : Prog) (hc : compile r
 /-- the real-matcher scan over a compiled rule list is first-match under the documented kinds -/
 theorem scanReal_compile (rxId : String → Nat) (n : Nat) (env : EnvR) (rs : List SrcRule) (fb : Nat) (P : Prog)
     (hc : compile rs fb = some P) (hout : ∀ r ∈ rs, r.out < 0xFE) (hfb : fb < 0xFE)
-    (hlen : P.ms.length ≤ n) (hwf : P.ipsWF = true) (haddr : ∀ a ∈ env.ips, a < 2 ^ 128) :
+    (hdom : ∀ d ∈ P.doms, d.idx < n) (hwf : P.ipsWF = true) (haddr : ∀ a ∈ env.ips, a < 2 ^ 128) :
     scanReal P (if env.name == [] then []
       else (List.range n).filter fun i => C11.docMatches (addCalls rxId P) i env.name env.rxHits) env
       = .hit (firstMatchDoc rxId env rs fb) := by
@@ -398,9 +400,6 @@ theorem scanReal_compile (rxId : String → Nat) (n : Nat) (env : EnvR) (rs : Li
   | some R =>
     simp [hR] at hc; subst hc
     have hok := entriesOf_ok R fb (toRules_out rs R hR hout) hfb
-    have hlen' : (entriesOf R fb).length ≤ n := by
-      have : (link (entriesOf R fb)).ms.length = (entriesOf R fb).length := linkMs_length _ 0
-      omega
     have h := scanGo_gen
       (evalMSReal (link (entriesOf R fb))
         (if env.name == [] then []
@@ -409,7 +408,7 @@ theorem scanReal_compile (rxId : String → Nat) (n : Nat) (env : EnvR) (rs : Li
       (evAtomDoc rxId env) (entriesOf R fb)
       (by
         intro pre e suf hall
-        have := evalMSReal_at rxId n env pre suf e (by rw [← hall]; exact hlen') (by rw [← hall]; exact hwf) haddr
+        have := evalMSReal_at rxId n env pre suf e (by rw [← hall]; exact hdom) (by rw [← hall]; exact hwf) haddr
         rw [← hall] at this
         exact this)
       (entriesOf R fb) [] (by simp) hok false false
@@ -428,8 +427,8 @@ namespace DaeVerif.C07.Props
 open DaeVerif.C07 DaeVerif.RuleScan
 
 /-- **Request routing end to end with the real domain matcher.** For every request rule list and
-fallback the builder accepts, every table size `n` that holds the program (`MaxMatchSetLen` in
-production), every numbering of the regex patterns, every name of the property's alphabet (letters in
+fallback the builder accepts, every table size `n` above the positions of the program's domain sets (`MaxMatchSetLen` in production;
+qtype / ip / upstream sets may lie beyond it, as in the code), every numbering of the regex patterns, every name of the property's alphabet (letters in
 any case, digits, `-`, `_`, `.`; with or without trailing dot; also the empty name) and every qtype:
 `Build()` of the real domain matcher from the builder's `AddSet` calls succeeds, no `HasPrefix`
 panics, and `RequestMatcher.Match` — bitmap computed through the packed succinct tries and the
@@ -440,7 +439,7 @@ documented kind (full / suffix / keyword; regex per oracle).  No oracle is left 
 keyword. -/
 theorem request_match_real_is_first_match (n : Nat) (rxId : String → Nat) (rs : List SrcRule) (fb : Nat)
     (P : Prog) (env : EnvR) (hc : compileRequest rs fb = some P) (hw : OutsOK rs fb)
-    (hlen : P.ms.length ≤ n) (hn : C11.plainName env.name = true)
+    (hdom : ∀ d ∈ P.doms, d.idx < n) (hn : C11.plainName env.name = true)
     (haddr : ∀ a ∈ env.ips, a < 2 ^ 128) :
     requestMatchReal n rxId P env = .hit (firstMatchDoc rxId env (splitRequestRules rs) fb) := by
   unfold compileRequest at hc
@@ -448,20 +447,14 @@ theorem request_match_real_is_first_match (n : Nat) (rxId : String → Nat) (rs 
   · rename_i hreq
     have hout : ∀ r ∈ splitRequestRules rs, r.out < 0xFE := fun r hr => hw.1 r (List.mem_filter.mp hr).1
     -- a request program has no ip sets and uses no addresses: instantiate with `ips := []`
-    have hcalls : ∀ a ∈ addCalls rxId P, C11.callOk n a = true := by
-      unfold compile at hc
-      cases hR : toRules (splitRequestRules rs) with
-      | none => simp [hR] at hc
-      | some R =>
-        simp [hR] at hc; subst hc
-        exact addCalls_ok rxId n _ (by rw [← linkMs_length _ 0]; exact hlen)
+    have hcalls := addCalls_ok rxId n P hdom
     obtain ⟨b, hb, hidx⟩ := C11.Props.domain_matcher_correct n (addCalls rxId P) env.name env.rxHits hcalls hn
     have hwf : P.ipsWF = true := by
       apply ipsWF_of_rules (splitRequestRules rs) fb P hc
       intro r hr f hf
       have := List.all_eq_true.mp (List.all_eq_true.mp hreq r hr) f hf
       cases f <;> simp_all [Func.isReqFunc, Func.ipParamsWF]
-    have h := scanReal_compile rxId n env (splitRequestRules rs) fb P hc hout hw.2 hlen hwf haddr
+    have h := scanReal_compile rxId n env (splitRequestRules rs) fb P hc hout hw.2 hdom hwf haddr
     unfold requestMatchReal requestMatchBuilt
     rw [hb]
     by_cases hne : env.name = []
@@ -474,7 +467,7 @@ theorem request_match_real_is_first_match (n : Nat) (rxId : String → Nat) (rs 
 -- (upper case, trailing dot) of type CNAME is in the alphabet, the program fits a 16-entry table, and
 -- the first rule decides (`suffix: example.com` through the packed trie, `!qtype(a, aaaa)`).
 example : (compileRequest Ex.reqRules 0xFD).isSome = true ∧ OutsOK Ex.reqRules 0xFD ∧
-    ((compileRequest Ex.reqRules 0xFD).getD default).ms.length ≤ 16 ∧
+    (∀ d ∈ ((compileRequest Ex.reqRules 0xFD).getD default).doms, d.idx < 16) ∧
     C11.plainName (C11.strOf "A.Example.COM.") = true := by
   refine ⟨by decide, ?_, by decide, by decide⟩; unfold OutsOK Ex.reqRules; decide
 example : firstMatchDoc (fun _ => 0) ⟨C11.strOf "A.Example.COM.", 5, [], 0, []⟩ (splitRequestRules Ex.reqRules) 0xFD = 1 := by
@@ -493,20 +486,13 @@ condition holds iff some answer address is numerically contained in some prefix 
 IPv4-mapped). -/
 theorem response_match_real_is_first_match (n : Nat) (rxId : String → Nat) (rs : List SrcRule) (fb : Nat)
     (P : Prog) (env : EnvR) (hc : compile rs fb = some P) (hw : OutsOK rs fb)
-    (hlen : P.ms.length ≤ n) (hn : C11.plainName env.name = true) (hne : env.name ≠ [])
+    (hdom : ∀ d ∈ P.doms, d.idx < n) (hn : C11.plainName env.name = true) (hne : env.name ≠ [])
     (hips : ∀ r ∈ rs, ∀ f ∈ r.funcs, f.ipParamsWF) (haddr : ∀ a ∈ env.ips, a < 2 ^ 128) :
     responseMatchReal n rxId P env = .hit (firstMatchDoc rxId env rs fb) := by
-  have hcalls : ∀ a ∈ addCalls rxId P, C11.callOk n a = true := by
-    have hc' := hc
-    unfold compile at hc'
-    cases hR : toRules rs with
-    | none => simp [hR] at hc'
-    | some R =>
-      simp [hR] at hc'; subst hc'
-      exact addCalls_ok rxId n _ (by rw [← linkMs_length _ 0]; exact hlen)
+  have hcalls := addCalls_ok rxId n P hdom
   obtain ⟨b, hb, hidx⟩ := C11.Props.domain_matcher_correct n (addCalls rxId P) env.name env.rxHits hcalls hn
   have hwf := ipsWF_of_rules rs fb P hc hips
-  have h := scanReal_compile rxId n env rs fb P hc hw.1 hw.2 hlen hwf haddr
+  have h := scanReal_compile rxId n env rs fb P hc hw.1 hw.2 hdom hwf haddr
   unfold responseMatchReal responseMatchBuilt
   rw [hb]
   have : (env.name == []) = false := by simpa using hne
@@ -523,7 +509,7 @@ theorem response_match_real_empty_name (n : Nat) (rxId : String → Nat) (P : Pr
 -- `!qname(suffix: cn) && qtype(a) -> reject`): prefixes are valid, and the answer `10.1.2.3` from u0 is
 -- re-asked at u1, from u1 it is emptied.
 example : (compile Ex.respRules 0xFC).isSome = true ∧ OutsOK Ex.respRules 0xFC ∧
-    ((compile Ex.respRules 0xFC).getD default).ms.length ≤ 16 ∧
+    (∀ d ∈ ((compile Ex.respRules 0xFC).getD default).doms, d.idx < 16) ∧
     (∀ r ∈ Ex.respRules, ∀ f ∈ r.funcs, f.ipParamsWF) := by
   refine ⟨by decide, ?_, by decide, ?_⟩
   · unfold OutsOK Ex.respRules; decide
